@@ -12,6 +12,7 @@ func init() {
 			readerDiscardRules(c, "C04")
 			helperReadDataRules(c, "C04")
 			helperReadMessageRules(c, "C04")
+			helperNextReaderRules(c, "C04")
 			// the payload the reader delivers is unmasked by CipherReader
 			c02Streams(c)
 			// the reader's own header decoder and the header rules it applies
